@@ -615,6 +615,29 @@ func vxEnumerate(maxNodes int, emit func(build func() vxCase)) {
 			})
 		}
 	}
+	// A5 (thorough). all digraphs WITHOUT self-loops on 5 nodes (2^20 adjacency matrices)
+	if maxNodes >= 4 {
+		const n = 5
+		for code := 0; code < 1<<20; code++ {
+			code := code
+			emit(func() vxCase {
+				edges := make([][]int, n)
+				bit := 0
+				for i := 0; i < n; i++ {
+					for j := 0; j < n; j++ {
+						if i == j {
+							continue
+						}
+						if code&(1<<uint(bit)) != 0 {
+							edges[i] = append(edges[i], j)
+						}
+						bit++
+					}
+				}
+				return vxGraphCase("digraph5", fmt.Sprintf("n=5 loop-free adjacency=%#x", code), n, edges, code)
+			})
+		}
+	}
 	// B. families on 5..8 nodes
 	for n := 5; n <= 8; n++ {
 		n := n
@@ -1107,7 +1130,7 @@ type vxState struct {
 func (st *vxState) violate(c *vxCase, sig, detail string) {
 	cc := *c
 	cc.Yaml = ""
-	if len(st.classes[sig]) < 40 {
+	if len(st.classes[sig]) < 8 {
 		st.classes[sig] = append(st.classes[sig], c.Family+": "+c.Desc)
 	}
 	st.rep.Violate(mc.Violation{Signature: sig, Detail: fmt.Sprintf("%s [%s: %s]\n--- configuration\n%s", detail, c.Family, c.Desc, c.Yaml), Replay: cc})
@@ -1250,7 +1273,7 @@ func TestVX_C11(t *testing.T) {
 	})
 	rep.AddDistinct(mine) // every case is a different abstract configuration (enumerated without repetition)
 	rep.Configs = mine
-	rep.Note(fmt.Sprintf("all curve digraphs (adjacency matrices incl. self-loops) on 1..%d nodes; chains, rings, diamonds, ring-with-tail (every back edge) on 5..8 nodes; "+
+	rep.Note(fmt.Sprintf("all curve digraphs (adjacency matrices incl. self-loops) on 1..%d nodes (thorough: plus all 2^20 digraphs without self-loops on 5 nodes); chains, rings, diamonds, ring-with-tail (every back edge) on 5..8 nodes; "+
 		"8 function types x 9 member lists; 10 step forms x 3 sensor kinds; duplicate/missing ids; every subset of back-ends per sensor/fan/curve; "+
 		"10 control-algorithm spellings x 7 fan kinds x 3 sensor kinds x 4 curve kinds x options; unresolvable references; shipped fan2go.yaml; total cases %d", maxNodes, idx))
 }
